@@ -220,8 +220,18 @@ type rw interface {
 
 // CodecOf returns the codec of a library packet value.
 func CodecOf(v any, fresh func() any) PktCodec {
-	switch x := v.(type) {
-	case rw:
+	if x, ok := v.(util.Message); ok {
+		return PktCodec{
+			Len:    func() int { return int(x.Len()) },
+			Encode: x.MarshalBinary,
+			Decode: func(b []byte) (any, error) {
+				f := fresh().(util.Message)
+				err := f.UnmarshalBinary(b)
+				return f, err
+			},
+		}
+	}
+	if x, ok := v.(rw); ok {
 		return PktCodec{
 			Len: func() int { return int(x.Len()) },
 			Encode: func() ([]byte, error) {
@@ -232,16 +242,6 @@ func CodecOf(v any, fresh func() any) PktCodec {
 			Decode: func(b []byte) (any, error) {
 				f := fresh().(rw)
 				_, err := f.Write(b)
-				return f, err
-			},
-		}
-	case util.Message:
-		return PktCodec{
-			Len:    func() int { return int(x.Len()) },
-			Encode: x.MarshalBinary,
-			Decode: func(b []byte) (any, error) {
-				f := fresh().(util.Message)
-				err := f.UnmarshalBinary(b)
 				return f, err
 			},
 		}
